@@ -93,7 +93,7 @@ def judge(events, outs):
                                 {"was": g0, "now": g1, "raised": cls}))
             arg_error = f.get("wrong_type") or (f.get("needs_ghi") and not f.get("has_ghi"))
             dq = bool(f.get("data_dq")) and fam != "caltrack"
-            refit = "@refit-same-object" if f.get("reused") else ""
+            refit = ("@refit-after-failed-fit" if f.get("after_failed_fit") else "@refit-same-object") if f.get("reused") else ""
             if arg_error:
                 if cls == "returned":
                     why = "wrong-type" if f.get("wrong_type") else "missing-ghi"
